@@ -783,6 +783,42 @@ func r7FieldStoredAsGiven(w *World, r *Report, rule, key, ctor, typ, field, para
 		}
 	}
 	if n == 0 {
+		// the object is made by a helper of the package that is handed the value
+		for _, b := range f.Blocks {
+			for _, in := range b.Instrs {
+				c, ok := in.(*ssa.Call)
+				if !ok {
+					continue
+				}
+				h := c.Call.StaticCallee()
+				if h == nil || h.Blocks == nil || h.Pkg != f.Pkg {
+					continue
+				}
+				for i, a := range c.Call.Args {
+					if a != ssa.Value(given) || i >= len(h.Params) {
+						continue
+					}
+					for _, hb := range h.Blocks {
+						for _, hin := range hb.Instrs {
+							st, isSt := hin.(*ssa.Store)
+							if !isSt {
+								continue
+							}
+							fa, isFA := st.Addr.(*ssa.FieldAddr)
+							if !isFA || !isFieldAddrOf(fa, fld) {
+								continue
+							}
+							n++
+							if st.Val != ssa.Value(h.Params[i]) {
+								why = "the value stored is `" + st.Val.String() + "`"
+							}
+						}
+					}
+				}
+			}
+		}
+	}
+	if n == 0 {
 		panic(undecided{ctor + ": store to " + field})
 	}
 	r.Check(why == "", rule, ctor+" stores "+field+" as given", f.Pos(), field+": "+param, why+", not the "+param+" handed in: "+consequence)
